@@ -49,13 +49,15 @@ func (wl *WhopLoc) Continue(s *Scope, args List, depth int) Object {
 	if len(args) == 0 {
 		args = wl.Args
 	}
-	for wl.Current++; wl.Current < len(wl.Method.Combinations); wl.Current++ {
-		wrap := wl.Method.Combinations[wl.Current].Wrap
+	// The location itself is left as is so that continuing again from the
+	// same wrapper starts with the same next wrapper.
+	for i := wl.Current + 1; i < len(wl.Method.Combinations); i++ {
+		wrap := wl.Method.Combinations[i].Wrap
 		if wrap == nil {
 			continue
 		}
 		ws := s.NewScope()
-		ws.Let("~whopper-location~", &WhopLoc{Method: wl.Method, Current: wl.Current, Args: args})
+		ws.Let("~whopper-location~", &WhopLoc{Method: wl.Method, Current: i, Args: args})
 		if lam, ok := wrap.(*Lambda); ok {
 			lam.Closure = ws
 		}
